@@ -87,6 +87,11 @@ def gen_case(rng, tier):
     kinds = KINDS if rng.random() < 0.6 else ("bond", "bond", "bond", "hyper", "out1", "batch")
     net = relabel(gen.rand_net(rng, nmin=2, nmax=nmax, max_inds=10, dims=(1, 2, 2, 3, 4), kinds=kinds,
                                allow_scalar=rng.random() < 0.3))
+    if rng.random() < 0.25:
+        # the estimates are exact integers of any magnitude: large, non-power-of-two dimensions take the
+        # operation counts beyond 2**53, where a float could no longer represent them
+        for ix in list(net.sizes):
+            net.sizes[ix] = rng.choice([1, 3, 46349, 999983, 1000003, (1 << 20) + 7, (1 << 31) - 1])
     return {"net": net.json(), "tree": gen.rand_tree(rng, len(net.inputs)),
             "order": rng.choice(["dfs", "callable", "surface"]), "late": rng.random() < 0.5,
             "seed": rng.randrange(1 << 30),
